@@ -32,7 +32,7 @@ ASSUMPTIONS = common.BASE_ASSUMPTIONS + [
     "if the ERR_LOG reference run meets a foreign exception or overruns its budget the wire is skipped (C08's business)",
 ]
 REAL_VS_STUB = common.REAL_VS_STUB
-QUICK_RUNS = 16000
+QUICK_RUNS = 36000
 EXPECTED_PROBES = {
     t: ["constructive_wires", "relational_wires", "handler_calls>=2", "raise_after_>=1_item", "raise_completes_clean", "rejected_ubx", "rejected_nmea", "rejected_rtcm", "logger_records"]
     for t in ("quick", "thorough")
